@@ -203,6 +203,13 @@ fn find_event(entries: &[HEntry], rng: &mut Rng) -> Value {
         .into();
     let all: Vec<Entry> = dir.clone().into();
     let mut ids = vec![0u64, 1, u64::MAX, rng.next()];
+    for e in entries.iter().take(8) {
+        // IDs a multiple of 2^32 beyond a run (plus less than the run length)
+        for k in [1u64, 3, 1 << 31] {
+            ids.push(e.id.wrapping_add(k << 32));
+            ids.push(e.id.wrapping_add(k << 32).wrapping_add(e.run.saturating_sub(1)));
+        }
+    }
     for e in entries {
         for d in [0u64, 1] {
             ids.push(e.id.wrapping_sub(d));
